@@ -27,7 +27,7 @@ ASSUMPTIONS = ['input leaves and weights are finite; weights of the hull theorem
                'ownership theorems are about the hand-written store script of Model/C07_Model.v, tied to the code by the '
                'translated donate_argnums tables and by the is_deleted / aliasing observations of this harness']
 PARTIAL = ['C07_inputs_not_donated / C07_result_fresh: real XLA donation is runtime behaviour; the script models it only at the donate_argnums call sites']
-CASE_TIMEOUT = 60
+CASE_TIMEOUT = 180
 TOL = 1e-5
 
 # ---------------------------------------------------------------------------
@@ -172,6 +172,41 @@ def generate(tier, rng):
     yield {'kind': 'clip', 'struct': st, 'trees': [flat], 'weights': [], 'perm': [0], 'c': float(c), 'norm': float(norm),
            'input': 'list', 'wtype': rng.choice(['float', 'int', 'jnp']) if float(c).is_integer() else 'float',
            'leaf': rng.choice(['jax', 'jax', 'np']), 'tol': 0.0 if exact else TOL}
+  # low-precision / narrow leaf dtypes: the tree operations are dtype-generic.  Values and weights are
+  # kept so small that every intermediate is exact in the leaf dtype (float16: 11 significant bits,
+  # bfloat16: 8, int8: no overflow), so these cases are compared exactly like the float32 dyadic ones.
+  n_lowp = {'quick': 70, 'thorough': 700, 'search': 500}.get(tier, 70)
+  for i in range(n_lowp):
+    dtype = ['float16', 'bfloat16', 'int8'][i % 3]
+    kind = rng.choice(['mean', 'agg', 'sum', 'sum', 'clip'] if dtype != 'int8' else ['mean', 'agg', 'sum', 'sum'])
+    st = rng.choice([s_ for s_ in structs if size(s_) <= 12])
+    k = size(st)
+    lim = {'float16': 8, 'bfloat16': 2, 'int8': 10}[dtype]
+    if kind == 'clip':
+      comps, norm = rng.choice([((3, 4), 5), ((5, 12), 13), ((0, 0), 0), ((1, 0), 1), ((4, 3), 5)])
+      st = rng.choice([s_ for s_ in structs if 2 <= size(s_) <= 12] or [['a', [2]]])
+      k = size(st)
+      flat = [float(c_ * rng.choice([1, -1])) for c_ in comps] + [0.0] * (k - 2)
+      rng.shuffle(flat)
+      c = float(rng.choice([norm, norm * 2, norm + 1, norm / 2, norm / 4, 0.0]))
+      yield {'kind': 'clip', 'struct': st, 'trees': [flat], 'weights': [], 'perm': [0], 'c': c, 'norm': float(norm),
+             'input': 'list', 'wtype': 'float', 'leaf': rng.choice(['jax', 'np']), 'tol': 0.0, 'dtype': dtype}
+      continue
+    n = rng.choice([1, 2, 3, 4])
+    trees = [[float(rng.randrange(-lim, lim + 1)) for _ in range(k)] for _ in range(n)]
+    ws = []
+    if kind != 'sum':
+      ws = [float(rng.choice([0, 1, 1, 2])) for _ in range(n)]
+      tot = sum(ws)
+      if i % 5 == 0:
+        ws = [0.0] * n
+      elif tot not in (1, 2, 4, 8):
+        ws[-1] += [t for t in (1, 2, 4, 8) if t > tot - 0][0] - tot if tot > 0 else 1.0
+    perm = list(range(n))
+    rng.shuffle(perm)
+    yield {'kind': kind, 'struct': st, 'trees': trees, 'weights': ws, 'perm': perm,
+           'input': rng.choice(['list', 'gen', 'iter']), 'wtype': rng.choice(['float', 'int']),
+           'leaf': rng.choice(['jax', 'jax', 'np']), 'tol': 0.0, 'dtype': dtype}
   for i in range(n_small):
     st = rng.choice(structs)
     k = size(st)
@@ -279,8 +314,12 @@ def _call(case, order):
   import fedjax
   from fedjax.core import tree_util
   st, kind = case['struct'], case['kind']
-  dt = np.dtype(case.get('dtype', 'float32'))
-  mk = (lambda a: jnp.asarray(a, dtype=dt)) if case['leaf'] == 'jax' else (lambda a: np.asarray(a, dtype=dt))
+  dt = np.dtype(jnp.bfloat16) if case.get('dtype') == 'bfloat16' else np.dtype(case.get('dtype', 'float32'))
+  mk = (lambda a: jnp.asarray(a, dtype=dt)) if case['leaf'] == 'jax' else (lambda a: np.asarray(a).astype(dt))
+  # sums keep the leaf dtype; leaf * weight follows jax's promotion: a floating leaf keeps its dtype under a
+  # python-scalar weight, everything else becomes float32
+  floating = case.get('dtype', 'float32') in ('float16', 'bfloat16', 'float32')
+  want_dt = dt if kind in ('sum', 'add') or (floating and case['wtype'] in ('float', 'int')) else np.dtype(np.float32)
   trees = [build(st, case['trees'][i], mk) for i in order]
   snaps = [[np.array(l, copy=True) for l in _leaves(t)] for t in trees]
   ws = [case['weights'][i] for i in order] if kind in ('mean', 'agg') else case['weights']
@@ -315,7 +354,7 @@ def _call(case, order):
   res = jax.block_until_ready(res)
   same_struct = (res is not None and jax.tree_util.tree_structure(res) == jax.tree_util.tree_structure(trees[0]) and
                  [tuple(np.shape(l)) for l in _leaves(res)] == [tuple(np.shape(l)) for l in _leaves(trees[0])] and
-                 all(np.asarray(l).dtype == (dt if kind in ('sum', 'add') else np.float32) for l in _leaves(res)))
+                 all(np.asarray(l).dtype == want_dt for l in _leaves(res)))
   one_shot = None
   if it is not None:
     one_shot = {'taken': it.i, 'len': len(it._items), 'iter_calls': it.iter_calls, 'after_end': it.after_end}  # pylint: disable=protected-access
@@ -368,7 +407,7 @@ def oracle(case, obs):
   if res is None:
     return [('returns-none', f'{kind} returned None for a non-empty input')]
   if not obs['struct_ok']:
-    out.append(('structure', 'result does not have the structure / leaf shapes of the inputs (dtype: the inputs\' for sums, float32 for means)'))
+    out.append(('structure', 'result does not have the structure / leaf shapes of the inputs (dtype: the inputs\' for sums; leaf-times-weight promotion for means / clipping)'))
   for p in obs['inputs'] + obs['inputs_perm']:
     out.append(('input-' + p, f'{kind}: a caller input array was {p} by the call'))
   os_ = obs['one_shot']
